@@ -109,6 +109,44 @@ static void mode_rows(void) {
   }
 }
 
+/* ---------- the row / column primitives on VIEWS: exactly the addressed entries of the view change, nothing of the parent ---------- */
+typedef struct { int rowoff, wordoff, trailw, trailr, nest; } vplc;
+static const vplc VP[] = {{1, 0, 1, 1, 0}, {0, 1, -1, 0, 0}, {1, 2, 1, 1, 1}, {0, 3, 1, 0, 0}, {2, 1, 1, 1, 0}};
+static void view_case(const char *sig, int op, int n, int a, int b, int x, int pl, int fill) {
+  if (!vx_case_begin("%s|view|n=%d|%d,%d,%d|place=%d|fill=%d", sig, n, a, b, x, pl, fill)) return;
+  int R = 5; char desc[120], msg[256]; snprintf(desc, sizeof desc, "view n=%d args %d,%d,%d placement (%d,%d,%d,%d,nest=%d)", n, a, b, x, VP[pl].rowoff, VP[pl].wordoff, VP[pl].trailw, VP[pl].trailr, VP[pl].nest);
+  pm *M = labelled(R, n, 7 + op);
+  vw_nest = VP[pl].nest; vwin w = vw_make(M, 1, VP[pl].rowoff, VP[pl].wordoff, VP[pl].trailw, VP[pl].trailr, fill); vw_nest = 0; vw_snapshot(&w);
+  mzd_t *V = w.view;
+  switch (op) {
+  case 0: for (int j = 64 * x; j < n; j++) { int p = pm_get(M, a, j), q = pm_get(M, b, j); pm_set(M, a, j, q); pm_set(M, b, j, p); } if (x == 0) mzd_row_swap(V, a, b); else _mzd_row_swap(V, a, b, x); break;
+  case 1: for (int j = x; j < n; j++) pm_set(M, a, j, pm_get(M, a, j) ^ pm_get(M, b, j)); mzd_row_add_offset(V, a, b, x); break;
+  case 2: for (int j = x; j < n; j++) pm_set(M, a, j, 0); mzd_row_clear_offset(V, a, x); break;
+  case 3: for (int j = 0; j < n; j++) pm_set(M, b, j, pm_get(M, b, j) ^ pm_get(M, a, j)); mzd_row_add(V, a, b); break;
+  case 4: for (int i = 0; i < R; i++) { int p = pm_get(M, i, a), q = pm_get(M, i, b); pm_set(M, i, a, q); pm_set(M, i, b, p); } mzd_col_swap(V, a, b); break;
+  case 5: for (int i = 1; i < 4; i++) { int p = pm_get(M, i, a), q = pm_get(M, i, b); pm_set(M, i, a, q); pm_set(M, i, b, p); } mzd_col_swap_in_rows(V, a, b, 1, 4); break;
+  }
+  if (!mzd_eq_pm(V, M)) vx_fail(sig, "effect-on-view", "%s: the view does not hold the specified result", desc);
+  if (vw_outside_changed(&w, msg, sizeof msg)) vx_fail(sig, "parent-outside", "%s: %s", desc, msg);
+  vx_input(((uint64_t)n << 44) ^ ((uint64_t)op << 40) ^ ((uint64_t)(a * 700 + b) << 16) ^ ((uint64_t)x << 4) ^ (uint64_t)pl ^ ((uint64_t)fill << 60), 1);
+  vw_free(&w); pm_free(M);
+  vx_case_end();
+}
+static void mode_views(void) {
+  static const int NS[] = {1, 63, 64, 65, 127, 128, 130, 192, 200, 257, 300, 385, 641};
+  for (int ni = 0; ni < 13; ni++) { int n = NS[ni], W = (n + 63) / 64;
+    for (int pl = 0; pl < 5; pl++) for (int fill = 1; fill < 3; fill++) {
+      if (!vx_tier && fill == 2 && (pl & 1)) continue;
+      for (int sb = 0; sb <= W; sb++) { view_case("_mzd_row_swap", 0, n, 0, 3, sb, pl, fill); view_case("_mzd_row_swap", 0, n, 4, 1, sb, pl, fill); }
+      for (int off = 0; off < n; off++) { if (n > 130 && !vx_tier && !((off & 63) <= 1 || (off & 63) == 63 || off == n - 1 || off % 37 == 0)) continue;
+        view_case("mzd_row_add_offset", 1, n, 0, 3, off, pl, fill); view_case("mzd_row_add_offset", 1, n, 4, 1, off, pl, fill); view_case("mzd_row_clear_offset", 2, n, 2, 0, off, pl, fill); }
+      view_case("mzd_row_add", 3, n, 1, 3, 0, pl, fill); view_case("mzd_row_add", 3, n, 4, 0, 0, pl, fill);
+      static const int CP[][2] = {{0, 0}, {0, 1}, {0, 63}, {1, 64}, {63, 64}, {62, 129}, {64, 128}, {0, 640}, {199, 3}, {256, 191}};
+      for (int k = 0; k < 10; k++) { int ca = CP[k][0], cb = CP[k][1]; if (ca >= n || cb >= n) { ca = ca % n; cb = n - 1 - (cb % n); } view_case("mzd_col_swap", 4, n, ca, cb, 0, pl, fill); view_case("mzd_col_swap_in_rows", 5, n, ca, cb, 0, pl, fill); }
+    }
+  }
+}
+
 /* ---------- bit ranges ---------- */
 static void mode_bits(void) {
   static const int NS[] = {192, 130, 64, 65, 1, 7};
@@ -286,6 +324,7 @@ void prop_enumerate(void) {
   if (!strcmp(mode, "colswap")) mode_colswap();
   else if (!strcmp(mode, "rows")) mode_rows();
   else if (!strcmp(mode, "bits")) mode_bits();
+  else if (!strcmp(mode, "views")) mode_views();
   else if (!strcmp(mode, "combine")) mode_combine();
   else if (!strcmp(mode, "perm_small")) mode_perm_small();
   else if (!strcmp(mode, "perm_big")) mode_perm_big();
